@@ -4,6 +4,8 @@ import (
 	"bytes"
 	"encoding/json"
 	"fmt"
+	"os"
+	"os/exec"
 	"path/filepath"
 	"slices"
 	"sort"
@@ -420,10 +422,28 @@ func init() {
 	vc.Register(&vc.Check{
 		ID: "C15", Level: "model_checking",
 		Rule: "the real attachment connection loop on scripted connections: file sets of 1..2 files (thorough 3), sizes 1..6 (plus one file of 2.5 x 64 KiB chunks), chunk sizes 1..3, ALL chunk orders (<= 4 chunks: all permutations; more: rotations and reversal), one resent chunk at every position and behind the completion frame, a lost chunk followed by the completion report / resend / second report round, names and alarm IDs from {a.jpg, 01cd, x01cdy, a name with 0x7E, a 50-byte name}, the five dialects, for the length-prefixed HLJ chunk header also names of 51..255 bytes; every stream cut into reads: one unit per read, all coalesced, EVERY 1-cut, and every 2-cut among positions within 1 byte of a frame/chunk boundary, marker or length field (thorough: every 2-cut of streams <= 500 bytes). " +
-			"Oracle on FileEventer snapshots and socket replies: complete only when all bytes arrived, content byte-identical, one prescribed reply per control frame with serials 0,1,2... states = scripted sessions (paths through the progress state machine), transitions = reads. Non-trivial = session with >= 2 chunks",
-		Assumptions: []string{"reference layouts harness/ref/attach.go (Su-biao and the four dialect widths the repository documents)", "connection loop reached through the VerifRunConnection accessor (tag verif)"},
+			"Oracle on FileEventer snapshots and socket replies: complete only when all bytes arrived, content byte-identical, one prescribed reply per control frame with serials 0,1,2... Binding of the accessor to the public entry point: 25 of the sessions (5 shapes x 5 dialects: whole, hole + second round, two files with resent chunks, one file lost, unfinished) are replayed over real loopback TCP against attachment.New(WithActiveSafetyType, WithFileEventerFunc...).Run() of the un-instrumented build: reply bytes and assembled files must be identical and every connection must get its own FileEventer (a difference in content is a violation, a real-TCP session that does not finish within 20 s is reported as inconclusive). states = scripted sessions (paths through the progress state machine), transitions = reads. Non-trivial = session with >= 2 chunks",
+		Assumptions: []string{"reference layouts harness/ref/attach.go (Su-biao and the four dialect widths the repository documents)", "connection loop reached through the VerifRunConnection accessor (tag verif); tied to attachment.New(...).Run() by the real-TCP replay"},
 		Run:         c15Run,
-		Drivers:     map[string]func(json.RawMessage) string{"up": func(raw json.RawMessage) string { return upReplay(raw, "C15") }},
+		Drivers: map[string]func(json.RawMessage) string{"up": func(raw json.RawMessage) string { return upReplay(raw, "C15") },
+			"confb-att": func(raw json.RawMessage) string {
+				bin := os.Getenv("VERIF_CONFB")
+				if bin == "" {
+					return "replay needs VERIF_CONFB (bin/vcheck sets it)"
+				}
+				f, err := os.CreateTemp("", "confb-att-*.json")
+				if err != nil {
+					return err.Error()
+				}
+				defer os.Remove(f.Name())
+				_, _ = f.Write(append(append([]byte("["), raw...), ']'))
+				_ = f.Close()
+				out, _ := exec.Command(bin, f.Name()).CombinedOutput()
+				if strings.Contains(string(out), "MISMATCH ") {
+					return string(out)
+				}
+				return ""
+			}},
 	})
 	vc.Register(&vc.Check{
 		ID: "C16", Level: "model_checking",
@@ -473,7 +493,110 @@ func upReplay(raw json.RawMessage, prop string) string {
 	return d
 }
 
+// confBAttachment replays representative upload sessions, as executed on the virtual socket through the accessor
+// VerifRunConnection, over real loopback TCP against attachment.New(...).Run() of the un-instrumented build: same
+// reply bytes, same assembled files, one FileEventer per connection, dialect taken from WithActiveSafetyType.
+func confBAttachment(rep *vc.Report) {
+	bin := os.Getenv("VERIF_CONFB")
+	if bin == "" {
+		rep.Notes = append(rep.Notes, "conformance B (attachment) skipped: VERIF_CONFB not set (bin/vcheck sets it)")
+		return
+	}
+	type attTrace struct {
+		Name      string            `json:"name"`
+		Server    string            `json:"server"`
+		Dialect   int               `json:"dialect"`
+		Writes    []string          `json:"writes_hex"`
+		ExpectAll string            `json:"expect_all_hex"`
+		Files     map[string]string `json:"files_hex"`
+	}
+	var traces []attTrace
+	for di := range c03Dialects {
+		f1 := upFile{Name: "cb1.bin", Data: upData(5, 3)}
+		f2 := upFile{Name: "cb2.jpg", Data: upData(4, 7)}
+		cases := map[string]upCase{
+			"whole":      {Files: []upFile{f1}, Chunks: []upChunk{{0, 0, 3}, {0, 3, 2}}, Finish: true},
+			"hole":       {Files: []upFile{f1}, Chunks: []upChunk{{0, 0, 2}, {0, 4, 1}}, Finish: true, Second: true},
+			"two-files":  {Files: []upFile{f1, f2}, Chunks: []upChunk{{1, 2, 2}, {0, 3, 2}, {0, 0, 3}, {1, 0, 2}, {0, 0, 3}}, Finish: true},
+			"one-lost":   {Files: []upFile{f1, f2}, Chunks: []upChunk{{0, 0, 5}}, Finish: true, Second: true},
+			"unfinished": {Files: []upFile{f1}, Chunks: []upChunk{{0, 1, 2}}},
+		}
+		for _, name := range sortedKeys(cases) {
+			c := cases[name]
+			c.Dialect, c.AlarmID, c.Seg = di, "cb", "unit"
+			r := upRun(c)
+			if r.panicked != "" || len(r.events) == 0 {
+				rep.Nondet = "conformance B (attachment): virtual run failed: " + r.panicked
+				return
+			}
+			var firstReport map[int][][2]uint32
+			if c.Second {
+				firstReport = map[int][][2]uint32{}
+				for i, f := range c.Files {
+					firstReport[i] = upMissing(len(unhx(f.Data)), c.Chunks, i)
+				}
+			}
+			units, _ := upUnits(c, firstReport)
+			t := attTrace{Name: fmt.Sprintf("%s/%s", c03Dialects[di], name), Server: "attachment", Dialect: int(c03Dialects[di]), Files: map[string]string{}}
+			for _, u := range units {
+				t.Writes = append(t.Writes, hx2(u))
+			}
+			var all []byte
+			for _, f := range r.replies {
+				all = append(all, f...)
+			}
+			t.ExpectAll = hx2(all)
+			for n, st := range r.events[len(r.events)-1].Files {
+				t.Files[n] = hx2(st.Body)
+			}
+			traces = append(traces, t)
+		}
+	}
+	f, err := os.CreateTemp("", "confb-att-*.json")
+	if err != nil {
+		return
+	}
+	defer os.Remove(f.Name())
+	js, _ := json.Marshal(traces)
+	_, _ = f.Write(js)
+	_ = f.Close()
+	out, err := exec.Command(bin, f.Name()).CombinedOutput()
+	if err != nil {
+		code := -1
+		if ee, ok := err.(*exec.ExitError); ok {
+			code = ee.ExitCode()
+		}
+		switch code {
+		case 3:
+			rep.Notes = append(rep.Notes, "conformance B (attachment) skipped: loopback TCP not available here: "+strings.TrimSpace(string(out)))
+		case 1:
+			// the virtual runs are deterministic functions of the session and passed the oracle of this check; a public
+			// entry point that answers the same session differently, or assembles other files, breaks the property
+			for _, line := range strings.Split(string(out), "\n") {
+				if !strings.HasPrefix(line, "MISMATCH ") {
+					continue
+				}
+				for _, t := range traces {
+					if strings.HasPrefix(line, "MISMATCH "+t.Name+": ") {
+						rep.Outcome("fail:public-entry-point")
+						rep.Add("public-entry-point-differs", "attachment.New(...).Run() over real TCP, session "+line[len("MISMATCH "):], "confb-att", t)
+					}
+				}
+			}
+		default:
+			rep.SoftBroken = "conformance B (attachment): inconclusive (a real-TCP session did not finish within 20 s, or the replay tool failed):\n" + string(out)
+		}
+		return
+	}
+	rep.Count("conformance_b_attachment_sessions_identical_over_real_tcp", int64(len(traces)))
+	rep.TracesValidated += int64(len(traces))
+	rep.Notes = append(rep.Notes, "conformance B (attachment): "+strings.TrimSpace(string(out)))
+}
+
 func c15Run(ctx *vc.Ctx, rep *vc.Report) {
+	if ctx.Worker == 0 {
+		confBAttachment(rep)
+	}
 	var idx int64
 	try := func(c upCase) {
 		idx++
